@@ -260,6 +260,22 @@ pub fn generate(prop: &str, tier: &str, r: &mut Rng, out: &mut Vec<String>) -> G
                 let mut rr = r.fork();
                 msgs.push(wellformed(&mut rr));
             }
+            {
+                // one message with more than 1024 (and more than 4096) fields: cuts and faults at sampled offsets and near the end
+                for nvals in [1500u32] {
+                    let w = crate::wiregen::WMsg { version: 0x0101, op: 0, id: 1, groups: vec![crate::wiregen::WGroup { tag: 4, attrs: vec![crate::wiregen::WAttr { name: b"media-supported".to_vec(), vals: (0..nvals).map(|i| crate::wiregen::WVal::Plain(0x44, format!("m{}", i).into_bytes())).collect() }] }] };
+                    let b = crate::wiregen::ser(&w);
+                    let mut offs: Vec<usize> = (0..b.len()).step_by(1499).collect();
+                    offs.extend(b.len().saturating_sub(12)..b.len());
+                    for k in offs {
+                        out.push(line("sync", &[Ev::Data(b[..k].to_vec())]));
+                        out.push(line("async", &[Ev::Data(b[..k].to_vec())]));
+                        let evs = vec![Ev::Data(b[..k].to_vec()), Ev::Fail(std::io::ErrorKind::ConnectionReset), Ev::Data(b[k..].to_vec())];
+                        out.push(line("sync", &evs));
+                        out.push(line("async", &evs));
+                    }
+                }
+            }
             for (b, p) in msgs {
                 let ha = b.len() - if p.is_empty() && b.ends_with(&[0xaa, 0xbb]) { 2 } else { 0 };
                 let ha = ha.min(600);
@@ -347,6 +363,21 @@ pub fn generate(prop: &str, tier: &str, r: &mut Rng, out: &mut Vec<String>) -> G
         "C04" => {
             let n = if thorough { 200_000 } else { 3_000 };
             let lim = crate::wiregen::WLimits { max_depth: if thorough { 6 } else { 4 }, malformed_per_mille: 8, boundary: true };
+            {
+                // large but shallow trees: more than 1024 / 4096 values, attributes, members and groups
+                use crate::wiregen::*;
+                let int = |i: u32| WVal::Plain(0x21, i.to_be_bytes().to_vec());
+                for n in [1100usize, 2500] {
+                    let wide = WMsg { version: 0x0101, op: 0, id: 1, groups: vec![WGroup { tag: 4, attrs: vec![WAttr { name: b"media-supported".to_vec(), vals: (0..n as u32).map(int).collect() }, WAttr { name: b"last".to_vec(), vals: vec![WVal::Plain(0x22, vec![1])] }] }] };
+                    out.push(format!("wire {} aabb", show_wmsg(&wide)));
+                    let many = WMsg { version: 0x0101, op: 0, id: 1, groups: vec![WGroup { tag: 1, attrs: (0..n).map(|i| WAttr { name: format!("a{}", i).into_bytes(), vals: vec![int(i as u32)] }).collect() }, WGroup { tag: 2, attrs: vec![] }] };
+                    out.push(format!("wire {} -", show_wmsg(&many)));
+                    let groups = WMsg { version: 0x0101, op: 0, id: 1, groups: (0..n).map(|i| WGroup { tag: [1u8, 2, 4, 5][i % 4], attrs: if i % 7 == 0 { vec![WAttr { name: b"x".to_vec(), vals: vec![int(i as u32)] }] } else { vec![] } }).collect() };
+                    out.push(format!("wire {} 03", show_wmsg(&groups)));
+                    let members = WMsg { version: 0x0101, op: 0, id: 1, groups: vec![WGroup { tag: 1, attrs: vec![WAttr { name: b"c".to_vec(), vals: vec![WVal::Coll((0..n).map(|i| (format!("m{:05}", i).into_bytes(), vec![int(i as u32)])).collect())] }] }] };
+                    out.push(format!("wire {} -", show_wmsg(&members)));
+                }
+            }
             for _ in 0..n {
                 let mut rr = r.fork();
                 let w = crate::wiregen::gen_wmsg(&mut rr, &lim);
@@ -354,7 +385,7 @@ pub fn generate(prop: &str, tier: &str, r: &mut Rng, out: &mut Vec<String>) -> G
                 out.push(format!("wire {} {}", crate::wiregen::show_wmsg(&w), hex(&p)));
             }
             GenInfo {
-                rule: "seeded random wire trees from the RFC 8010 grammar (0-4 groups incl. repeated/empty, 0-4 attributes with 1-4 values, every tag 0x10-0x4a, syntactically valid bodies incl. non-UTF-8 text and rare 255/256/65535-byte bodies, nested collections with multi-valued and duplicate members, duplicate attribute names; ~0.8% of the choices deliberately malformed), serialised by the harness's own serializer; non-trivial = distinct case lines the parser accepts or rejects with a definite outcome".into(),
+                rule: "seeded random wire trees from the RFC 8010 grammar (0-4 groups incl. repeated/empty, 0-4 attributes with 1-4 values, every tag 0x10-0x4a, syntactically valid bodies incl. non-UTF-8 text and rare 255/256/65535-byte bodies, nested collections with multi-valued and duplicate members, duplicate attribute names; ~0.8% of the choices deliberately malformed), serialised by the harness's own serializer, preceded by large shallow trees (1100/2500 values, attributes, groups, members); non-trivial = distinct case lines the parser accepts or rejects with a definite outcome".into(),
                 exhaustive: false,
             }
         }
